@@ -7,7 +7,7 @@ func v2(p string) string { return p + " v2\n" }
 
 func checkC04(e *RunEnv) *CheckResult {
 	paths := []string{"a", "d/x", "d/y", "d/s/z", "ad/x", "d-x"}
-	singles := []string{"a", "d/x", "d/y", "d/s/z", "ad/x", "d-x", "d", "d/s", "ad", "nope", "d/nope"}
+	singles := []string{"a", "d/x", "d/y", "d/s/z", "ad/x", "d-x", "d", "d/s", "ad", "nope", "d/nope", "d/", "./d", "./a", "d/s/."}
 	pairAlpha := []string{"a", "d", "d/x", "nope"}
 	if e.Thorough() {
 		pairAlpha = []string{"a", "d", "d/x", "nope", "ad", "d-x", "d/s"}
